@@ -897,6 +897,8 @@ def ast_sexp(n: ast.AST) -> str:
 		if isinstance(n.func, ast.Attribute):
 			return f'( call {ast_sexp(n.func.value)} {n.func.attr} {args} )'.replace('  ', ' ')
 		if isinstance(n.func, ast.Name):
+			if n.func.id in USER_FUNCS:
+				raise Unsupported('call of a user function')
 			return f'( fcall {n.func.id} {args} )'.replace('  ', ' ')
 		raise Unsupported('call')
 	if isinstance(n, (ast.ListComp, ast.DictComp)):
